@@ -202,12 +202,47 @@ def _validate_one(args):
     return res
 
 
+_TKEY = re.compile(rb'^\{"(?:t|T)":(\d+)')
+MAX_TRACE_BYTES = int(os.environ.get("VERIF_MAX_TRACE_MB", "120")) * 1024 * 1024
+
+
+def split_big_traces(trace_files):
+    """TLC loads a whole trace file into memory (ndJsonDeserialize): files above MAX_TRACE_BYTES are cut into several files at
+    history boundaries (the records of one history carry the same t and stay together)."""
+    out = []
+    for idx, tf in enumerate(trace_files):
+        if not os.path.exists(tf) or os.path.getsize(tf) <= MAX_TRACE_BYTES:
+            out.append((tf, idx))
+            continue
+        k, size, cur_t, fh = 0, 0, None, None
+        with open(tf, "rb") as f:
+            for line in f:
+                m = _TKEY.match(line)
+                t = m.group(1) if m else cur_t
+                if fh is None or (size > MAX_TRACE_BYTES and t != cur_t and m):
+                    if fh:
+                        fh.close()
+                    part = "%s.cut%d" % (tf, k)
+                    out.append((part, idx))
+                    fh = open(part, "wb")
+                    k, size = k + 1, 0
+                cur_t = t
+                fh.write(line)
+                size += len(line)
+        if fh:
+            fh.close()
+        os.remove(tf)
+    return out
+
+
 def validate_traces(trace_files, module, cfg, name, timeout=3600, consts=None):
     """Validate each ndjson trace file with its own TLC process (parallel)."""
     jobs = []
-    for k, tf in enumerate(trace_files):
+    srcs = []
+    for k, (tf, src) in enumerate(split_big_traces(trace_files)):
         if os.path.getsize(tf) == 0:
             continue
+        srcs.append(src)
         d = tlc_dir("%s-%d" % (name, k))
         os.replace(tf, os.path.join(d, "trace.ndjson"))
         if consts:
@@ -218,7 +253,8 @@ def validate_traces(trace_files, module, cfg, name, timeout=3600, consts=None):
         jobs.append((d, module, cfg, timeout))
     results = []
     with concurrent.futures.ThreadPoolExecutor(max_workers=max(1, NCPU - 2)) as ex:
-        for r in ex.map(_validate_one, jobs):
+        for r, src in zip(ex.map(_validate_one, jobs), srcs):
+            r["part"] = src       # index of the trace file (= input part) this result belongs to
             results.append(r)
     return results
 
